@@ -9,6 +9,47 @@ import numpy as np
 import z3
 
 
+# ---- concrete mode (replay): symbols become numeric constants ----------------
+CONCRETE = {'on': False, 'values': {}, 'seed': 0}
+
+
+def set_concrete(on, values=None, seed=0):
+  CONCRETE['on'], CONCRETE['values'], CONCRETE['seed'] = on, dict(values or {}), seed
+
+
+def _concrete_value(name, sort, k):
+  vals = CONCRETE['values']
+  if name in vals:
+    v = vals[name]
+    return bool(v) if sort == 'bool' else v
+  import random
+  r = random.Random('%s|%s' % (CONCRETE['seed'], name))
+  if sort == 'bool':
+    return r.random() < 0.6
+  if sort == 'int':
+    return r.randint(1, 3) if name.startswith('len') else r.randint(0, 1)
+  if name.startswith(('var', 'rv')):
+    return r.randint(1, 8) / 4.0          # variances are positive
+  return r.randint(-8, 8) / 4.0
+
+
+def scalar(name, default=0.25):
+  """symbolic real scalar (eps, momentum, ...) or its concrete value in replay"""
+  if CONCRETE['on']:
+    return S(float(CONCRETE['values'].get(name, default)))
+  return S(z3.Real(name))
+
+
+def to_float(t):
+  t = z3.simplify(_num(t) if not z3.is_bool(t) else z3.If(t, z3.RealVal(1),
+                                                          z3.RealVal(0)))
+  if z3.is_rational_value(t):
+    return float(t.numerator_as_long()) / float(t.denominator_as_long())
+  if z3.is_algebraic_value(t):
+    return float(t.approx(12).as_fraction())
+  raise ValueError('not a numeric constant: %s' % t)
+
+
 def _z(v):
   if isinstance(v, S):
     return v.t
@@ -17,7 +58,9 @@ def _z(v):
   if isinstance(v, (int, np.integer)):
     return z3.IntVal(int(v))
   if isinstance(v, (float, np.floating)):
-    return z3.RealVal(repr(float(v)))
+    import fractions
+    fr = fractions.Fraction(float(v))
+    return z3.RealVal('%d/%d' % (fr.numerator, fr.denominator))
   if isinstance(v, z3.ExprRef):
     return v
   raise TypeError(type(v))
@@ -132,7 +175,21 @@ class S:
 _UF = {}
 
 
+_NUMERIC = {
+    'exp': lambda x: math.exp(max(min(x, 700.0), -745.0)) if x > -1e30 else 0.0,
+    'tanh': math.tanh,
+    'sigmoid': lambda x: 1.0 / (1.0 + math.exp(-x)) if x > -700 else 0.0,
+    'rsqrt': lambda x: 1.0 / math.sqrt(x),
+    'sqrt': math.sqrt,
+}
+
+
 def uf(name, *args):
+  if CONCRETE['on'] and name in _NUMERIC and len(args) == 1:
+    try:
+      return S(float(_NUMERIC[name](to_float(_z(args[0])))))
+    except ValueError:
+      pass
   f = _UF.get((name, len(args)))
   if f is None:
     f = z3.Function(name, *([z3.RealSort()] * (len(args) + 1)))
@@ -165,6 +222,9 @@ class A:
   @staticmethod
   def sym(name, shape, sort='real'):
     n = int(np.prod(shape)) if shape else 1
+    if CONCRETE['on']:
+      vals = [_concrete_value('%s_%d' % (name, i), sort, i) for i in range(n)]
+      return A([S(v) for v in vals], shape, 'int32' if sort == 'int' else sort)
     mk = {'real': z3.Real, 'int': z3.Int, 'bool': z3.Bool}[sort]
     return A([S(mk('%s_%d' % (name, i))) for i in range(n)], shape,
              'int32' if sort == 'int' else sort)
@@ -176,7 +236,27 @@ class A:
     if isinstance(x, S):
       return A([x], ())
     arr = np.asarray(x)
+    if arr.dtype == bool:
+      return A([S(bool(v)) for v in arr.reshape(-1)], arr.shape, 'bool')
     return A([S(v.item()) for v in arr.reshape(-1)], arr.shape)
+
+  # ---- conversion to real arrays (only for numeric constants: replay mode)
+  def to_numpy(self):
+    vals = [to_float(x.t) for x in self.data]
+    if self.dtype == 'bool':
+      return np.array([v != 0 for v in vals], bool).reshape(self.shape)
+    if str(self.dtype).startswith('int'):
+      return np.array(vals).astype(np.int32).reshape(self.shape)
+    return np.array(vals, np.float64).reshape(self.shape)
+
+  def __jax_array__(self):
+    import jax.numpy as jnp
+    a = self.to_numpy()
+    return jnp.asarray(a.astype(np.float32) if a.dtype == np.float64 else a)
+
+  def __array__(self, dtype=None, copy=None):
+    a = self.to_numpy()
+    return a.astype(dtype) if dtype is not None else a
 
   @property
   def ndim(self): return len(self.shape)
@@ -381,8 +461,42 @@ def _bidx(idx, shape, full):
   return tuple(0 if shape[i] == 1 else idx[i + off] for i in range(len(shape)))
 
 
+def _numeric_equal(pairs, tol=2e-4):
+  for got, want in pairs:
+    g = np.asarray(A.of(got).to_numpy() if isinstance(got, (A, S)) else got,
+                   np.float64)
+    w = np.asarray(A.of(want).to_numpy() if isinstance(want, (A, S)) else want,
+                   np.float64)
+    if g.shape != w.shape:
+      return 'sat', 'shape %r vs %r' % (g.shape, w.shape), 1
+    if not np.allclose(g, w, rtol=tol, atol=tol):
+      return 'sat', 'numeric mismatch: got %r want %r' % (
+          g.reshape(-1)[:6].tolist(), w.reshape(-1)[:6].tolist()), 1
+  return 'unsat', None, 1
+
+
+def model_values(model):
+  out = {}
+  for d in model.decls():
+    if d.arity() != 0:
+      continue
+    v = model[d]
+    try:
+      if z3.is_bool(v):
+        out[d.name()] = bool(z3.is_true(v))
+      elif z3.is_int_value(v):
+        out[d.name()] = v.as_long()
+      else:
+        out[d.name()] = to_float(v)
+    except Exception:
+      pass
+  return out
+
+
 def prove_equal(pairs, assumptions=(), timeout_ms=60000):
   """pairs: [(got, want)] of S / A / numbers.  Returns (status, model|None, nq)"""
+  if CONCRETE['on']:
+    return _numeric_equal(pairs)
   s = z3.Solver()
   s.set('timeout', timeout_ms)
   for a in assumptions:
